@@ -83,6 +83,12 @@ PROPS['C10'] = dict(engine='sched', fields=['trace'], trivial_tags=[],
     trusted_base=STREAM_TB + ['the baton scheduler of the harness (harness/src/sched_engine.rs) and the verif-hooks mutex wrapper in /repo/src/verif_hooks.rs'],
     assumptions=['std::sync::Mutex provides mutual exclusion; effects below the mutex (weak memory) are not exhibited', 'every operation of the real code holds the lock for contiguous sections and wakes only after releasing it (checked per schedule by the hook: wake-while-locked, lock count per operation)', 'write_all is not part of the concurrent programs (each of its writes is one such operation)'])
 
+# a case on which the implementation does not return is a failure of the property itself where the
+# property speaks about bodies being delivered, ending or reporting errors; for the properties that
+# only constrain status and headers it is reported as a broken correspondence (the model is total)
+for _p in ('C03', 'C04', 'C05', 'C14', 'C15'):
+    PROPS[_p]['hang_is_violation'] = False
+
 def known_class(prop, specfail, known_here):
     """Returns the known-finding entry whose class contains this failing case, if any."""
     for k in known_here:
@@ -110,6 +116,10 @@ def relevant(field, patterns):
         elif field == p:
             return True
     return False
+
+# seconds without progress after which a harness worker is given up on (one case takes milliseconds)
+STALL = {'quick': 45, 'thorough': 120}
+CASE_LIMIT = {'quick': 10, 'thorough': 30}
 
 def explore(prop, cfg, tier, seed, work, result, T):
     if cfg['engine'] in ('serve', 'negot', 'stream', 'dir', 'file', 'sched'):
@@ -141,9 +151,26 @@ def explore_lines(prop, cfg, tier, seed, work, result, T):
         profiles = ['debug'] + (['release'] if tier == 'thorough' else [])
         for prof in profiles:
             base = os.path.join(work, 'run-' + prof)
-            rc, o = T['run']([T['harness_bin'](prof), 'gen-run', '--property', prop, '--tier', tier, '--seed', str(seed), '--out', base], timeout=3000)
-            if rc != 0:
-                raise RuntimeError('harness failed: ' + o[-2000:])
+            for ext in ('.cases', '.meta'):
+                if os.path.exists(base + ext):
+                    os.remove(base + ext)
+            err, hangs, _ = T['run_watched']([T['harness_bin'](prof), 'gen-run', '--property', prop, '--tier', tier, '--seed', str(seed), '--out', base, '--case-limit', str(CASE_LIMIT[tier])],
+                                             stall=STALL[tier])
+            if err:
+                raise RuntimeError(err)
+            for h in hangs:
+                # the implementation did not return (or took the process down) on this generated case
+                rec = {'id': '%s-hang-%d' % (prof[0], h['index']),
+                       'line': 'hang %s %s %d %s %d %s' % (prop, tier, seed, prof, h['index'], h['class']),
+                       'class': h['class'], 'field': 'returns', 'model': 'returns (totality theorem)', 'impl': h['how'],
+                       'clause': prop + ':implementation-' + ('does-not-return' if 'return' in h['how'] else 'takes-the-process-down')}
+                if cfg.get('hang_is_violation', True):
+                    result['specfails'].append(rec)
+                else:
+                    result['divergences'].append(rec)
+                result['extra'].setdefault('cases_not_returning', []).append({'index': h['index'], 'class': h['class'], 'how': h['how'], 'profile': prof})
+            if not os.path.exists(base + '.cases'):
+                open(base + '.cases', 'w').close(); open(base + '.meta', 'w').close()
             for l in open(base + '.meta'):
                 p = l.rstrip('\n').split('\t')
                 meta[prof[0] + p[0]] = (p[1], p[2] if len(p) > 2 else '')
